@@ -238,6 +238,7 @@ func family(r *ev.Run, nmax int) int {
 func main() {
 	ev.GuardFor("C16")
 	r := ev.Start("C16")
+	defer r.FinishOnPanic()
 	n := ev.Pick(r, 5, 9)
 	rq := seqmc.Explore(r, seqmc.Config{Name: "queue", New: func() seqmc.Sys { return &qh{n: n, q: &lists.Queue[int]{}} }})
 	rs := seqmc.Explore(r, seqmc.Config{Name: "stack", New: func() seqmc.Sys { return &sh{n: n, s: new(lists.Stack[int])} }})
